@@ -4,7 +4,7 @@
    The positive theorems are about the repaired algorithm; the theorems named *_refuted /
    *_current_* state what the pinned code does instead (findings F3, F4, F5 and the dropped
    CorrFunc member). *)
-From Verif Require Import Prelude Containers ContainersP ContainersAcc ContainersAccP.
+From Verif Require Import Prelude Containers ContainersP ContainersAcc ContainersAccP Cursors CursorsP.
 Open Scope Q_scope.
 
 (* ---------------- addition ---------------- *)
@@ -320,4 +320,80 @@ Example C17_concrete :
           (pc_patches c (SList [0; 2]%Z)) = Some (true, true)
   /\ omap (fun r => edges (pc_bin r)) (pc_bins c (SSlice (Some 1%Z) None 1)) = Some [1; 2]
   /\ c17_case true (VPC c) (OAdd (VPC c)) (Val (VPC (pc_mul 2 c))) = 0%nat.
+Proof. vm_compute. repeat split; reflexivity. Qed.
+
+(* ---------------- re-entrant and interleaved iteration (Model/Cursors.v) ---------------- *)
+(* iter(x.bins) creates a cursor that owns its position.  For ANY sequence of operations (cursors over the
+   same or other containers created and advanced in any order, indexing, slicing, lengths in between): *)
+(* what the own-position machine returns is what the statement says (the j-th next() of a cursor yields
+   item j, read off the history alone) *)
+Theorem C17_cursor_machine_is_statement : forall (A : Type) len (get : source -> selector -> option A) ops,
+  total_get len get -> irun len get ops = srun len get ops.
+Proof. exact @irun_srun. Qed.
+Print Assumptions C17_cursor_machine_is_statement.
+
+(* what cursor k observes in an interleaving is what it observes when its operations run alone *)
+Theorem C17_cursor_noninterference : forall (A : Type) len (get : source -> selector -> option A) ops k,
+  own k (itrace len get [] ops) = itrace len get [] (filter (mentions k) ops).
+Proof. exact @cursor_noninterference. Qed.
+Print Assumptions C17_cursor_noninterference.
+
+(* every cursor yields item 0, 1, ..., n-1 of its source and StopIteration from then on *)
+Theorem C17_interleaving_own_sequence : forall (A : Type) len (get : source -> selector -> option A) ops k s m,
+  total_get len get ->
+  filter (mentions k) ops = CNew k s :: repeat (CNext k) m ->
+  map snd (own k (itrace len get [] ops)) = BNone :: map (yield len get s) (seq 0 m).
+Proof. exact @interleaving_own_sequence. Qed.
+Print Assumptions C17_interleaving_own_sequence.
+
+(* PatchedCounts: every loop over c.bins / c.patches, interleaved in any way with other loops over the same
+   container, sees c.bins[0] .. c.bins[n-1] (c.patches[0] .. c.patches[N-1]) and ends *)
+Theorem C17_cursor_sequence_counts : forall c ops k a,
+  pc_wfb c = true ->
+  filter (mentions k) ops = CNew k (0%nat, a) :: repeat (CNext k) (S (pc_axis_len c a)) ->
+  map snd (own k (itrace (c_len [VPC c]) (c_get [VPC c]) [] ops))
+  = BNone :: map BItem (tab (pc_axis_len c a) (pc_axis_item c a)) ++ [BStop].
+Proof. exact pc_cursor_sequence. Qed.
+Print Assumptions C17_cursor_sequence_counts.
+Theorem C17_cursor_run_spec_counts : forall c ops,
+  pc_wfb c = true -> irun (c_len [VPC c]) (c_get [VPC c]) ops = srun (c_len [VPC c]) (c_get [VPC c]) ops.
+Proof. exact pc_cursor_run_spec. Qed.
+Print Assumptions C17_cursor_run_spec_counts.
+
+(* the variant with ONE position per (object, axis) (a helper that is its own iterator, handed out once per
+   container): indistinguishable while a single cursor is used ... *)
+Theorem C17_shared_position_single_cursor_ok : forall (A : Type) len (get : source -> selector -> option A) ops k,
+  Forall (only_cursor k) ops -> hrun len get ops = irun len get ops.
+Proof. exact @shared_single_cursor_ok. Qed.
+Print Assumptions C17_shared_position_single_cursor_ok.
+(* ... and wrong for zip(x.bins, x.bins) and for nested loops *)
+Theorem C17_shared_position_refuted :
+  irun (toy_len 4) (toy_get 4) zip_4
+    = [BNone; BNone; BItem 0; BItem 0; BItem 1; BItem 1; BItem 2; BItem 2; BItem 3; BItem 3; BStop]%nat
+  /\ hrun (toy_len 4) (toy_get 4) zip_4
+    = [BNone; BNone; BItem 0; BItem 1; BItem 2; BItem 3; BStop; BStop; BStop; BStop; BStop]%nat
+  /\ irun (toy_len 2) (toy_get 2) nested_2x2
+    = [BNone; BItem 0; BNone; BItem 0; BItem 1; BStop; BItem 1; BNone; BItem 0; BItem 1; BStop; BStop]%nat
+  /\ hrun (toy_len 2) (toy_get 2) nested_2x2
+    = [BNone; BItem 0; BNone; BItem 0; BItem 1; BStop; BStop; BNone; BItem 0; BItem 1; BStop; BStop]%nat
+  /\ srun (toy_len 4) (toy_get 4) zip_4 <> hrun (toy_len 4) (toy_get 4) zip_4
+  /\ srun (toy_len 2) (toy_get 2) nested_2x2 <> hrun (toy_len 2) (toy_get 2) nested_2x2.
+Proof. exact shared_position_refuted. Qed.
+Print Assumptions C17_shared_position_refuted.
+
+(* non-vacuity on the concrete 2-bin, 3-patch container: a loop over the bins with a loop over the patches
+   nested in its first round and an index expression in between; the checker accepts exactly these
+   observations and flags the ones of the shared-position variant for zip(c.bins, c.bins) *)
+Example C17_cursor_concrete :
+  let c := c17_pc_example in
+  let ops := [CNew 0 (0, ABins); CNext 0; CNew 1 (0, APatches); CNext 1; CIndex (0, ABins) (SInt (-1));
+              CNext 1; CNext 0; CNext 1; CNext 1; CLen (0, APatches); CNext 0]%nat in
+  irun (c_len [VPC c]) (c_get [VPC c]) ops
+  = [BNone; BItem (VPC (pc_bin_item c 0)); BNone; BItem (VPC (pc_patch_item c 0)); BItem (VPC (pc_bin_item c 1));
+     BItem (VPC (pc_patch_item c 1)); BItem (VPC (pc_bin_item c 1)); BItem (VPC (pc_patch_item c 2)); BStop;
+     BNum 3; BStop]%nat
+  /\ c17_cursor_case [VPC c] ops (irun (c_len [VPC c]) (c_get [VPC c]) ops) = 0%nat
+  /\ (let z := [CNew 0 (0, ABins); CNew 1 (0, ABins); CNext 0; CNext 1; CNext 0]%nat in
+      c17_cursor_case [VPC c] z (irun (c_len [VPC c]) (c_get [VPC c]) z) = 0%nat
+      /\ c17_cursor_case [VPC c] z (hrun (c_len [VPC c]) (c_get [VPC c]) z) = (1 + 2 + 8 + 16 * 4)%nat).
 Proof. vm_compute. repeat split; reflexivity. Qed.
